@@ -503,6 +503,8 @@ def dense(c, rng):
     c["n"] = len(st)
     # the upward simulation is specified for automata without useless states only
     c["dirs"] = ["down", "up"] if vlib.ta_is_trim(c["A"]) else ["down"]
+    if rng.random() < 0.3:
+        c["relcopy"] = True        # the relation is read through a copy whose source variable is re-used
     if len(c["A"]["rules"]) >= 2 and rng.random() < 0.35:
         c["split"] = rng.randint(1, len(c["A"]["rules"]) - 1)      # ask the same object before and after the last rules are added
 
